@@ -65,6 +65,13 @@ func corpus() [][]sh.Op {
 			{Kind: "AddWorkload", W: wl("w1", "a0_e0_s", "n1")}, {Kind: "AddWorkload", W: wl("w10", "a0x_e0-t_s", "n10")}, {Kind: "AddWorkload", W: wl("w2", "a0_e0-t_s", "n10")},
 			{Kind: "ListNodeWorkloads", N: "n1"}, {Kind: "ListWorkloads", A: "a0", E: "e0", N: "n1"}, {Kind: "ListWorkloads", A: "a0"}, {Kind: "GetDeployStatus", A: "a0", E: "e0"},
 			{Kind: "GetWorkloads", Names: []string{"w1", "w10"}}, {Kind: "GetNodes", Names: []string{"n1", "n10"}}},
+		// several processing markers (distinct idents) on one (app, entry, node) are summed; decrement and deletion of one of them
+		{addPod, addN0, {Kind: "CreateProcessing", Pr: &sh.Proc{App: "a0", Entry: "e0", Node: "n0", Ident: "i0"}, Cnt: 2},
+			{Kind: "CreateProcessing", Pr: &sh.Proc{App: "a0", Entry: "e0", Node: "n0", Ident: "i1"}, Cnt: 3},
+			{Kind: "CreateProcessing", Pr: &sh.Proc{App: "a0", Entry: "e0", Node: "n1", Ident: "i0"}, Cnt: 5},
+			{Kind: "GetDeployStatus", A: "a0", E: "e0"}, {Kind: "AddWorkload", W: wl("w0", "a0_e0_s", "n0"), Pr: &sh.Proc{App: "a0", Entry: "e0", Node: "n0", Ident: "i1"}},
+			{Kind: "GetDeployStatus", A: "a0", E: "e0"}, {Kind: "DeleteProcessing", Pr: &sh.Proc{App: "a0", Entry: "e0", Node: "n0", Ident: "i0"}},
+			{Kind: "GetDeployStatus", A: "a0", E: "e0"}},
 		// list limits: more matches than the limit
 		{addPod, addN0, {Kind: "AddWorkload", W: wl("w0", "a0_e0_s", "n0")}, {Kind: "AddWorkload", W: wl("w1", "a0_e0_s", "n0")}, {Kind: "AddWorkload", W: wl("w2", "a0x_e0_s", "n0")},
 			{Kind: "ListWorkloads", Limit: 1}, {Kind: "ListWorkloads", Limit: 2}, {Kind: "ListWorkloads", Limit: 3}, {Kind: "ListWorkloads", Limit: 4},
